@@ -545,6 +545,8 @@ DIFF_BASE_CASE = {"C04": 1 | 2 | 4 | 64, "C05": 16 | 32, "C17": 8}
 WPT_BASE_CASE = ("C01",)
 # native setter sweep (every corpus URL x 10 setters x ~200 values): the only coverage of the host setters / set_href / ada::url setters
 SETTER_BASE_CASE = ("C03", "C19")
+# the same sweep under limits around the sizes involved (C09: setters under a limit)
+SETTER_LIMIT_BASE_CASE = ("C09",)
 
 COMMON_ASSUMPTIONS = [
     "clang-14 -O1 IR of /repo's src/ada.cpp (single translation unit, -fno-exceptions, -fno-access-control) is the code under test; "
